@@ -520,7 +520,7 @@ def probe(inp):
     if kind == 'dependent-history':
         return dep_history(inp['smiles'], inp['history'])
     if kind == 'dependent-api':
-        return dep_api(inp['plain'], inp['marked'], inp['calls'])
+        return dep_api(inp['plain'], inp['marked'], inp['calls'], inp.get('rounds', False))
     if kind == 'dependent-edit':
         return dep_edit(inp['from'], inp['to'], inp['atom'], inp['symbol'])
     if kind == 'gate':
@@ -649,8 +649,11 @@ def probe(inp):
 # order of the ring-closure digits on every atom, order of the components.
 
 class Spec:
-    def __init__(self, atoms, bonds, centres=None, dbonds=None, name=''):
+    def __init__(self, atoms, bonds, centres=None, dbonds=None, name='', allenes=None):
         self.atoms, self.bonds, self.centres, self.dbonds, self.name = atoms, bonds, centres or {}, dbonds or {}, name
+        # allenes {centre: (ref4, sign)}: extended tetrahedron over the four substituents of the two terminal atoms
+        # (fully substituted terminals only), same sign convention as `centres`
+        self.allenes = allenes or {}
         self.adj = {a: [] for a in atoms}
         for (a, b) in bonds:
             self.adj[a].append(b)
@@ -675,7 +678,8 @@ class Spec:
 
     def mirror(self):
         return Spec(self.atoms, self.bonds, {c: (r, not s) for c, (r, s) in self.centres.items()},
-                    {k: (x, y, not cis) for k, (x, y, cis) in self.dbonds.items()}, self.name + '~mirror')
+                    {k: (x, y, not cis) for k, (x, y, cis) in self.dbonds.items()}, self.name + '~mirror',
+                    {c: (r, not s) for c, (r, s) in self.allenes.items()})
 
     def order(self, a, b):
         return self.bonds.get((a, b)) or self.bonds[(b, a)]
@@ -748,6 +752,16 @@ def spell(spec, starts, nbr_order, digit_order, ring_mark_side=0):
                 full.insert(1 if p is not None else 0, 'h')
             at = sign != odd(full, list(ref))  # sign True and even -> '@'
             out.append(f"[{sym}{'@' if at else '@@'}{'H' if nh else ''}]")
+        elif a in spec.allenes:
+            # OpenSMILES extended tetrahedral: the substituents of the two terminal atoms in text order
+            ref, sign = spec.allenes[a]
+            full = []
+            for t in nb:
+                tp = parent[t]
+                tcl = sorted(closures[t], key=digit_order[t]) if digit_order.get(t) else list(closures[t])
+                full += [x for x in ([tp] if tp is not None else []) + tcl + children[t] if x != a]
+            at = sign != odd(full, list(ref))
+            out.append(f"[{sym}{'@' if at else '@@'}]")
         elif sym in ORGANIC:
             out.append(sym)
         else:
@@ -956,9 +970,10 @@ def random_spec(rng, max_elements=8):
     return Spec(atoms, bonds, centres, dbonds, name=f'random-L{L}-t{len(centres)}-d{len(dbonds)}-r{len(rings)}')
 
 
-def flip_subset(spec, cs, ds):
+def flip_subset(spec, cs, ds, als=()):
     return Spec(spec.atoms, spec.bonds, {c: (r, (not s) if c in cs else s) for c, (r, s) in spec.centres.items()},
-                {k: (x, y, (not cis) if k in ds else cis) for k, (x, y, cis) in spec.dbonds.items()}, spec.name + '~flipped')
+                {k: (x, y, (not cis) if k in ds else cis) for k, (x, y, cis) in spec.dbonds.items()}, spec.name + '~flipped',
+                {c: (r, (not s) if c in als else s) for c, (r, s) in spec.allenes.items()})
 
 
 def flip_some(rng, spec):
@@ -2868,15 +2883,22 @@ def stream_gate(ctx):
 # the spec graph) carries every tetrahedral parity and every cis/trans relation of one onto the other; a unit is stereogenic
 # in a labelled molecule iff inverting it alone gives a different compound.
 
-DEP_ARMS = ('t3h', 't4', 'st3h', 'd2', 'd3', 'd3n', 'd4', 'sd3')
-DEP_DB_ARMS = ('d2', 'd3', 'd3n', 'd4')        # double bond directly on the attachment atom (not on a double-bond hub: conjugation)
-DEP_HUBS = ('T3h', 'T4', 'D3', 'D4')
+DEP_ARMS = ('t3h', 't4', 'st3h', 'd2', 'd3', 'd3n', 'd4', 'sd3', 'a4', 'sa4')
+DEP_DB_ARMS = ('d2', 'd3', 'd3n', 'd4', 'a4')  # double bond directly on the attachment atom (not on a double-bond hub: conjugation)
+DEP_HUBS = ('T3h', 'T4', 'D3', 'D4', 'A')
 DEP_EDIT = {'F': 'Cl', 'O': 'S'}              # leaf replacement that makes two identical arms constitutionally distinct
 
 
 def dep_arm(kind, o, hub):
-    """one arm: (atoms, bonds, centres, dbonds, attachment atom); ids o+1.. ; `hub` = id of the atom it hangs on"""
+    """one arm: (atoms, bonds, centres, dbonds, attachment atom[, allenes]); ids o+1.. ; `hub` = id of the atom it hangs on"""
     A, B, C, D, E = o + 1, o + 2, o + 3, o + 4, o + 5
+    F, G = o + 6, o + 7
+    if kind == 'a4':       # -C(F)=C=C(Cl)CH3
+        return ({A: 'C', B: 'C', C: 'C', D: 'F', E: 'Cl', F: 'C'}, {(A, B): 2, (B, C): 2, (A, D): 1, (C, E): 1, (C, F): 1}, {}, {}, A,
+                {B: ([hub, D, E, F], True)})
+    if kind == 'sa4':      # -CH2-C(F)=C=C(Cl)CH3
+        return ({A: 'C', B: 'C', C: 'C', D: 'C', E: 'F', F: 'Cl', G: 'C'},
+                {(A, B): 1, (B, C): 2, (C, D): 2, (B, E): 1, (D, F): 1, (D, G): 1}, {}, {}, A, {C: ([A, E, F, G], True)})
     if kind == 't3h':      # -CH(CH3)OH
         return {A: 'C', B: 'C', C: 'O'}, {(A, B): 1, (A, C): 1}, {A: ([hub, B, C, 'h'], True)}, {}, A
     if kind == 't4':       # -C(CH3)(OH)F
@@ -2902,11 +2924,13 @@ def dep_spec(name):
     """'dep:<hub>:<arm>:<arm>' one hub, two arms | 'dep3:<arm>' C(O)(arm)3 | 'dep2:<arm>' two equivalent hubs, four arms
     (arm)2CH-O-CH(arm)2 | 'depring:<n>' ring hubs"""
     parts = name.split(':')
-    atoms, bonds, centres, dbonds = {}, {}, {}, {}
+    atoms, bonds, centres, dbonds, allenes = {}, {}, {}, {}, {}
 
     def add(kind, o, hub):
         a = dep_arm(kind, o, hub)
         atoms.update(a[0]), bonds.update(a[1]), centres.update(a[2]), dbonds.update(a[3])
+        if len(a) > 5:
+            allenes.update(a[5])
         bonds[(hub, a[4])] = 1
         return a[4]
 
@@ -2930,6 +2954,10 @@ def dep_spec(name):
             atoms.update({2: 'C', 3: 'C', 4: 'F'})
             bonds.update({(1, 2): 2, (2, 3): 1, (2, 4): 1})
             dbonds[(1, 2)] = (x, 4, False)
+        elif hub == 'A':       # (arm)2C=C=C(F)Cl: the hub unit is the allene centre
+            atoms.update({2: 'C', 3: 'C', 4: 'F', 5: 'Cl'})
+            bonds.update({(1, 2): 2, (2, 3): 2, (3, 4): 1, (3, 5): 1})
+            allenes[2] = ([x, y, 4, 5], True)
         else:
             raise KeyError(hub)
     elif parts[0] == 'dep3':
@@ -2953,13 +2981,13 @@ def dep_spec(name):
             centres.update({1: ([7, 'h', 2, 6], True), 2: ([1, 3, 8, 'h'], True), 6: ([1, 5, 9, 'h'], True)})
     else:
         raise KeyError(name)
-    return Spec(atoms, bonds, centres, dbonds, name=name)
+    return Spec(atoms, bonds, centres, dbonds, name, allenes)
 
 
 def dep_names():
-    out = [f'dep:{h}:{k}:{k}' for h in DEP_HUBS for k in DEP_ARMS if not (h[0] == 'D' and k in DEP_DB_ARMS)]
+    out = [f'dep:{h}:{k}:{k}' for h in DEP_HUBS for k in DEP_ARMS if not (h[0] in 'DA' and k in DEP_DB_ARMS)]
     out += ['dep:T3h:t3h:t4', 'dep:T4:d3:d3n', 'dep:D3:t3h:st3h', 'dep:T3h:d2:sd3']      # controls: arms constitutionally distinct
-    out += ['dep2:t3h', 'dep2:d3', 'dep2:d3n']
+    out += ['dep2:t3h', 'dep2:d3', 'dep2:d3n', 'dep2:a4']
     return out
 
 
@@ -3007,6 +3035,9 @@ def same_config(s1, s2, pi):
     for c, (ref, sign) in s1.centres.items():
         if same_tetra(([f(v) for v in ref], sign), s2.centres[pi[c]]) is not True:
             return False
+    for c, (ref, sign) in s1.allenes.items():
+        if same_tetra(([f(v) for v in ref], sign), s2.allenes[pi[c]]) is not True:
+            return False
     for (a, b), (x, y, cis) in s1.dbonds.items():
         a2, b2, x2, y2 = pi[a], pi[b], pi[x], pi[y]
         if (a2, b2) in s2.dbonds:
@@ -3020,12 +3051,13 @@ def same_config(s1, s2, pi):
 
 def dep_combos(spec):
     """(elements, the 2^k label combinations, class id per combination by the automorphism judge)"""
-    els = [('c', c) for c in spec.centres] + [('d', d) for d in spec.dbonds]
+    els = [('c', c) for c in spec.centres] + [('d', d) for d in spec.dbonds] + [('a', c) for c in spec.allenes]
     auts = spec_automorphisms(spec)
     combos = []
     for mask in range(1 << len(els)):
         pick = [e for i, e in enumerate(els) if mask >> i & 1]
-        combos.append(flip_subset(spec, {x for t, x in pick if t == 'c'}, {x for t, x in pick if t == 'd'}))
+        combos.append(flip_subset(spec, {x for t, x in pick if t == 'c'}, {x for t, x in pick if t == 'd'},
+                                  {x for t, x in pick if t == 'a'}))
     cls = list(range(len(combos)))
     for i in range(len(combos)):
         for j in range(i):
@@ -3102,28 +3134,36 @@ def dep_history(smi, hist):
                     f'({n_labels(m)} labels), equal={m == fresh}')
 
 
-def dep_api(smi_plain, smi_marked, calls):
-    """(fails, what): labelling an unmarked parse through add_atom_stereo / add_cis_trans_stereo (units that are not yet
-    stereogenic are retried after the others, as every reader does) gives the molecule the marked spelling parses to"""
+def dep_api(smi_plain, smi_marked, calls, rounds=False):
+    """(fails, what): labelling an unmarked parse through add_atom_stereo / add_cis_trans_stereo gives the molecule the marked
+    spelling parses to.  rounds=False: one call after the other with the default cache handling, arm units before hub units
+    (a hub labelled while only one of its arms is, is a stereocentre at that moment - not judged); rounds=True: calls in any
+    order, units refused as not stereogenic are retried after the others with the stereo caches flushed in between (what
+    every reader does)"""
     from chython import smiles
     from chython.exceptions import NotChiral
     m, exp = smiles(smi_plain), smiles(smi_marked)
     todo = [tuple(c) for c in calls]
+    kw = {'clean_cache': False} if rounds else {}
     while todo:
         rest = []
         for c in todo:
             try:
                 if c[0] == 'c':
-                    m.add_atom_stereo(c[1], tuple(c[2]), bool(c[3]))
+                    m.add_atom_stereo(c[1], tuple(c[2]), bool(c[3]), **kw)
                 else:
-                    m.add_cis_trans_stereo(c[1], c[2], c[3], c[4], bool(c[5]))
+                    m.add_cis_trans_stereo(c[1], c[2], c[3], c[4], bool(c[5]), **kw)
             except NotChiral:
                 rest.append(c)
+        if rounds:
+            m.flush_stereo_cache()
         if len(rest) == len(todo):
             break
         todo = rest
+    if rounds:
+        m.flush_cache()
     ok = str(m) == str(exp) and m == exp and n_labels(m) == n_labels(exp)
-    return not ok, (f'{smi_plain!r} labelled through the API ({len(calls)} calls, {len(todo)} refused as not stereogenic): {str(m)!r} '
+    return not ok, (f'{smi_plain!r} labelled through the API ({len(calls)} calls{", reader-like rounds" if rounds else ""}, {len(todo)} refused as not stereogenic): {str(m)!r} '
                     f'({n_labels(m)} labels); the marked spelling {smi_marked!r} parses to {str(exp)!r} ({n_labels(exp)} labels)')
 
 
@@ -3157,6 +3197,14 @@ def _api_calls(sp, index):
         calls.append(['c', num[c], [num[x] for x in env], bool(mark)])
     for (a, b), (x, y, cis) in sp.dbonds.items():
         calls.append(['d', num[a], num[b], num[x], num[y], bool(cis)])
+    for c, (ref, sign) in sp.allenes.items():
+        # (nn, nm, mark): the mark a SMILES string carries when nn is the first substituent written on one terminal and nm the
+        # first on the other
+        t = {x: next(y for y in sp.adj[x] if y in sp.adj[c]) for x in ref}     # the terminal atom a substituent sits on
+        nn, nm = ref[0], next(x for x in ref if t[x] != t[ref[0]])
+        nn2 = next(x for x in ref if t[x] == t[nn] and x != nn)
+        nm2 = next(x for x in ref if t[x] == t[nm] and x != nm)
+        calls.append(['c', num[c], [num[nn], num[nm]], bool(sign != odd([nn, nn2, nm, nm2], list(ref)))])
     return calls
 
 
@@ -3207,7 +3255,7 @@ def dep_case(ctx, name, rng, n_spell, n_combos=None, n_hist=2, known=None):
                 break
         # histories, API labelling, edits on the first spelling
         smi, index = first
-        for h in rng.sample(sorted(DEP_HISTORIES), n_hist):
+        for h in rng.sample(sorted(h for h in DEP_HISTORIES if not (spec.allenes and h == 'rdkit-round-trip')), n_hist):
             ctx.count(('dependent-history', smi, h))
             ctx.dist('dependent-history:' + h)
             try:
@@ -3223,17 +3271,22 @@ def dep_case(ctx, name, rng, n_spell, n_combos=None, n_hist=2, known=None):
             (smi_p, idx2, _x), = list(spellings(plain_of(sp), _r.Random(seed), 1))
             calls = _api_calls(sp, idx)
             rng.shuffle(calls)
-            ctx.count(('dependent-api', smi_m))
+            rounds = rng.random() < 0.5
+            if not rounds:      # arm units first: hub atoms are the first ten ids of a family member
+                hubs = {idx[a] + 1 for a in sp.atoms if a < 10}
+                calls.sort(key=lambda c: c[1] in hubs)
+            ctx.count(('dependent-api', smi_m, rounds))
             try:
-                f, what = dep_api(smi_p, smi_m, calls)
+                f, what = dep_api(smi_p, smi_m, calls, rounds)
             except Exception as e:
                 f, what = True, f'{smi_p!r}: labelling API raised {type(e).__name__}: {e}'
             if f:
-                fail('label-dependent-unit/api-labelling-differs-from-reader', what, {'kind': 'dependent-api', 'plain': smi_p, 'marked': smi_m, 'calls': calls})
+                fail('label-dependent-unit/api-labelling-differs-from-reader', what,
+                     {'kind': 'dependent-api', 'plain': smi_p, 'marked': smi_m, 'calls': calls, 'rounds': rounds})
         leaves = [a for a in sp.atoms if a >= 20 and a < 30 and sp.atoms[a] in DEP_EDIT and len(sp.adj[a]) == 1]
         if leaves and rng.random() < 0.5:
             a = leaves[0]
-            sp2 = Spec({**sp.atoms, a: DEP_EDIT[sp.atoms[a]]}, sp.bonds, sp.centres, sp.dbonds, sp.name + '~edited')
+            sp2 = Spec({**sp.atoms, a: DEP_EDIT[sp.atoms[a]]}, sp.bonds, sp.centres, sp.dbonds, sp.name + '~edited', sp.allenes)
             seed = rng.randrange(10 ** 9)
             import random as _r
             (s1, idx, _x), = list(spellings(sp, _r.Random(seed), 1))
@@ -3249,7 +3302,10 @@ def dep_case(ctx, name, rng, n_spell, n_combos=None, n_hist=2, known=None):
                          {'kind': 'dependent-edit', 'from': src, 'to': dst, 'atom': idx[a] + 1, 'symbol': sym})
     # classes: same compound <=> equal; RDKit where it agrees with the judge
     keys = sorted(res)
-    rd = {i: {s: rd_canon(s) for s in res[i]} for i in keys}
+    if spec.allenes:        # RDKit has no allene stereo: automorphism judge only
+        rd = {i: {s: None for s in res[i]} for i in keys}
+    else:
+        rd = {i: {s: rd_canon(s) for s in res[i]} for i in keys}
     for x, i in enumerate(keys):
         si, vi = next(iter(res[i].items()))
         for j in keys[:x]:
@@ -3261,7 +3317,7 @@ def dep_case(ctx, name, rng, n_spell, n_combos=None, n_hist=2, known=None):
                      f'{si!r} -> {vi!r} and {sj!r} -> {vj!r}: ' + ('one compound (an automorphism carries one configuration onto the other)' if same
                                                                    else 'different stereoisomers (no automorphism carries one configuration onto the other)')
                      + f'; RDKit: {rd[i][si]!r} vs {rd[j][sj]!r}', {'kind': 'spelling-pair', 'a': si, 'b': sj, 'same': same})
-            if same != (rd[i][si] == rd[j][sj]):
+            if not spec.allenes and same != (rd[i][si] == rd[j][sj]):
                 ctx.dist('dependent:rdkit-disagrees-with-automorphism-judge')
         if len(set(rd[i].values())) == 1 and None not in rd[i].values():
             r_out = rd_canon(vi.split()[0])
@@ -3383,13 +3439,13 @@ def stream_fix_model(ctx):
     mols = []
     for name in dep_names():
         spec = dep_spec(name)
-        els = [('c', c) for c in spec.centres] + [('d', d) for d in spec.dbonds]
+        els = [('c', c) for c in spec.centres] + [('d', d) for d in spec.dbonds] + [('a', c) for c in spec.allenes]
         masks = list(range(1 << len(els)))
         if ctx.quick:
             masks = rng.sample(masks, 3)
         for mask in masks:
             pick = [e for i, e in enumerate(els) if mask >> i & 1]
-            sp = flip_subset(spec, {x for t, x in pick if t == 'c'}, {x for t, x in pick if t == 'd'})
+            sp = flip_subset(spec, {x for t, x in pick if t == 'c'}, {x for t, x in pick if t == 'd'}, {x for t, x in pick if t == 'a'})
             for smi, index, _nb in spellings(sp, rng, 1):
                 mols.append((smi, index, sp))
     for spec in tetra_specs() + dbond_specs() + cage_specs()[:3]:
